@@ -94,7 +94,7 @@ pub fn all() -> Vec<PropDef> {
         PropDef { id: "C20", run: p_res::run_c20, check: p_res::check_c20, max_buf: (1 << 20) + 8192, assumptions: &[
             "work is observed through hook H3 (per-thread counters in src/iter.rs); re-scans that bypass the cursor abstraction are only seen by the thorough tier's cachegrind instruction-count scaling",
             "the bounds are constants derived from the statement (travel <= len, block peeks <= len + 16, other primitives <= 8*len + 64); measured maxima on this tree are in coverage.runs[].maxima",
-        ], rule: "30 adversarial parametric families (folded lines, ignored lines, whitespace runs, near-miss SIMD blocks, many minimal headers, long fields, late errors, ...) at sizes 1 KiB..1 MiB x {whole, truncated at a random point, late error, size jitter} under each runtime backend; 8 KiB values with HTAB/SP/obs-text at every period 1..=40; G1 lenient-weighted messages. Oracle (hook H3 counters per call): exactly one cursor created, no backward cursor move, cursor travel <= len and == n on Complete(n), block peeks <= len + 16 (covering <= 8*(len+16)+64 bytes), every other primitive <= 8*len + 64. Non-trivial = len >= 4 KiB and >= 90% of the buffer consumed; distinct by hash of (entry,cfg,backend,buffer)" },
+        ], rule: "37 adversarial parametric families (folded lines, ignored lines, whitespace runs, near-miss SIMD blocks, many minimal headers, long fields, late errors, ...) at sizes 1 KiB..1 MiB x {whole, truncated at a random point, late error, size jitter} under each runtime backend; 8 KiB values with HTAB/SP/obs-text at every period 1..=40; G1 lenient-weighted messages. Oracle A (hook H3 counters per call): exactly one cursor created, no backward cursor move, cursor travel <= len and == n on Complete(n), block peeks <= len + 16 (covering <= 8*(len+16)+64 bytes), every other primitive <= 8*len + 64. Oracle B (no hooks, sees work that bypasses the cursor): for every family, instruction counts of the production vdigest build under valgrind --tool=cachegrind at N and 4N (cost = I(3 repeats) - I(1 repeat), deterministic) must satisfy cost(4N) <= 8*cost(N) + 60000 (linear = x4, quadratic = x16). Non-trivial = len >= 4 KiB and >= 90% of the buffer consumed; distinct by hash of (entry,cfg,backend,buffer)" },
     ]
 }
 
